@@ -36,6 +36,16 @@ class Lazy:
 _ITEMS = []
 
 
+def _quantified(t, seen=None):
+    seen = {} if seen is None else seen
+    if t.get_id() in seen:
+        return False
+    seen[t.get_id()] = True
+    if z3.is_quantifier(t):
+        return True
+    return any(_quantified(c, seen) for c in t.children())
+
+
 def _text(idx):
     smt = _ITEMS[idx][1]
     return smt.text() if isinstance(smt, Lazy) else smt
@@ -47,22 +57,31 @@ def _solve_one(job):
     try:
         smt2 = _text(idx)
         ctx = z3.Context()
+        # pass 0: the quantifier-free hypotheses alone (a subset of the hypotheses: `unsat` is `unsat`); many obligations are
+        # decided by ground reasoning, and this pass does not depend on the quantifier-instantiation heuristics at all
         s = z3.Solver(ctx=ctx)
-        s.set('timeout', timeout)
+        s.set('timeout', min(timeout, 3000))
         s.set('random_seed', SEED % (2 ** 31))
-        s.from_string(smt2)
+        ground = [a for a in z3.parse_smt2_string(smt2, ctx=ctx) if not _quantified(a)]
+        s.add(ground)
         r = s.check()
-        if r == z3.unknown:
-            # second attempt with pure E-matching (no model-based quantifier instantiation): obligations whose many
-            # quantified hypotheses send MBQI astray are often immediate this way; `unsat` is `unsat` under any option
+        if r == z3.unsat:
+            return idx, 'unsat', time.time() - t0, None, ''
+        # passes 1-3: default configuration with a short budget, then pure E-matching (no model-based quantifier
+        # instantiation: the axioms carry explicit triggers, and many quantified hypotheses send MBQI astray), then the default
+        # configuration with the full budget.  `unsat` is `unsat` under any option; `sat` is only taken from a default pass.
+        r = z3.unknown
+        for mbqi, budget in ((True, min(timeout, 3000)), (False, timeout), (True, timeout)):
             s = z3.Solver(ctx=ctx)
-            s.set('timeout', timeout)
+            s.set('timeout', budget)
             s.set('random_seed', SEED % (2 ** 31))
-            s.set('smt.mbqi', False)
+            if not mbqi:
+                s.set('smt.mbqi', False)
             s.from_string(smt2)
             r2 = s.check()
-            if r2 == z3.unsat:
+            if r2 == z3.unsat or (r2 == z3.sat and mbqi):
                 r = r2
+                break
         verdict = str(r)
         model = None
         if r == z3.sat and want_model:
